@@ -51,3 +51,20 @@ Definition no_conflict (rs : list reg) : bool :=
 Definition conflicts (rs : list reg) : list (reg * reg) :=
   flat_map (fun r1 => flat_map (fun r2 =>
      if String.eqb (rvar r1) (rvar r2) && negb (String.eqb (rdef r1) (rdef r2)) then [(r1, r2)] else []) rs) rs.
+
+(** Option-presence tests.  `cmd.Flags().Changed("name")` lets behaviour depend on whether the
+    option was GIVEN rather than on its value, so passing the documented default explicitly can
+    differ from omitting the option.  Every such call site of the current source (inventory in
+    Gen/Flags.v: file, command, option) must be a reviewed one. *)
+Definition changed_site := (string * string * string)%type.
+
+(** reviewed presence tests that do violate the property (open known finding C19-setrand-presence):
+    `gotree brlen setrand` switches to "mean drawn in [min-mean,max-mean]" only when BOTH options are given;
+    giving their documented defaults 0.001 and 0.05 explicitly therefore differs from omitting them. *)
+Definition reviewed_changed : list changed_site :=
+  [("randbrlen.go", "gotree brlen setrand", "min-mean"); ("randbrlen.go", "gotree brlen setrand", "max-mean")].
+
+Definition changed_eqb (a b : changed_site) : bool :=
+  match a, b with (f1, c1, o1), (f2, c2, o2) => String.eqb f1 f2 && String.eqb c1 c2 && String.eqb o1 o2 end.
+Definition unreviewed_changed (l : list changed_site) : list changed_site :=
+  filter (fun s => negb (existsb (changed_eqb s) reviewed_changed)) l.
